@@ -76,7 +76,7 @@ func runMapProtocolOn(c *Ctx, prefix, pkgRel, namePfx string, full bool) {
 	R.Rule(mp.rule("no-callback-under-lock"), "no call of a function-typed parameter and no channel operation while mu is held", 8)
 	R.Rule(mp.rule("entry-tables"), "entry helpers: a value is returned only from a word found non-nil and not expunged; 'absent' only when the last loaded word is nil or expunged; success after a CAS only when that CAS succeeded", 5)
 	R.Rule(mp.rule("cas-retry-reloads"), "every iteration of a retry loop on entry.p loads the word again", 3)
-	R.Rule(mp.rule("dirty-copy-complete"), "rebuilding the dirty map: every entry of the read map is carried over under its key or is on the true edge of the expunging helper", 1)
+	R.Rule(mp.rule("dirty-copy-complete"), "rebuilding the dirty map: every entry of the read map is carried over under its key or is on the true edge of the expunging helper, which reports true only for an expunged entry", 2)
 	R.Rule(mp.rule("effect-completeness"), "Store stores on every path; Load/LoadOrStore/LoadAndDelete return the entry operation's own result for the entry found after the re-check; Delete delegates to LoadAndDelete", 5)
 
 	mp.fMu = c.P.FieldOf(mp.pkg, "Map", "mu")
@@ -1963,6 +1963,72 @@ func (mp *mapProto) dirtyCopyComplete() {
 					expunger[fi.Name] = true
 				}
 			}
+		}
+	}
+	// the expunger's own contract: whatever it reports as true really is an expunged entry
+	for _, fi := range mp.funcs {
+		if !expunger[fi.Name] {
+			continue
+		}
+		recv := mp.recv(fi)
+		ok, why := true, ""
+		for _, p := range mp.paths[fi] {
+			if p.End != EndReturn || len(p.Rets) != 1 {
+				continue
+			}
+			ret := p.Rets[0]
+			if ret.IsConst("false") {
+				continue
+			}
+			var lastCAS *Event
+			var latest *Term
+			for i := range p.Events {
+				e := &p.Events[i]
+				if e.Kind != "call" || len(e.Args) == 0 || !isFieldAddr(e.Args[0], mp.fP, recv) {
+					continue
+				}
+				switch entryOpKind(e.Name) {
+				case "cas":
+					lastCAS = e
+				case "load":
+					latest, lastCAS = e.Res, nil
+				}
+			}
+			casToExp := lastCAS != nil && len(lastCAS.Args) == 3 && mp.isExpunged(lastCAS.Args[2])
+			switch {
+			case ret.IsConst("true"):
+				good := false
+				if casToExp {
+					for _, cd := range p.Conds {
+						t, pol := stripNot(cd.T, cd.Pol)
+						if pol && t.Key() == lastCAS.Res.Key() {
+							good = true
+						}
+					}
+				}
+				if !good && latest != nil {
+					for _, cd := range p.Conds {
+						r := cd.Rel()
+						if r.B != nil && r.Op == "==" && ((r.A.Key() == latest.Key() && mp.isExpunged(r.B)) || (r.B.Key() == latest.Key() && mp.isExpunged(r.A))) {
+							good = true
+						}
+					}
+				}
+				if !good {
+					ok, why = false, fmt.Sprintf("reports 'expunged' on a path (%s) where neither its CAS to expunged succeeded nor the loaded word equals expunged", p.CondString())
+				}
+			case casToExp && ret.Key() == lastCAS.Res.Key():
+			default:
+				r := NormRel(ret, true)
+				isEq := r.B != nil && r.Op == "==" && (mp.isExpunged(r.B) || mp.isExpunged(r.A))
+				if !isEq {
+					ok, why = false, "the reported flag is "+ret.String()+", which is not 'the word equals expunged'"
+				}
+			}
+		}
+		o := c.R.Decide(ok, rule, fi.Name, "contract", c.pos(fi), "true only for an entry that is expunged", why)
+		if !ok {
+			o.Breaks = "a live entry is left out of the new dirty map"
 		}
 	}
 	n := 0
